@@ -94,3 +94,8 @@ CLAIMED['C15'] = dict(
          'explicit state variants for the header-array cache (fresh / padded / masked), the population mask (loaded or not) and the ordinal override; preload vs file mode give the same spec result. '
          'lru caches are assumed transparent (justified by the purity the loader contracts establish). Known finding D16 (irregular files: padding-convention mismatch raises AssertionError) is reported, not repaired.',
     note='AX-LRU; frozen-field frame condition enforced by the engine; multi-reader / emulator sharing argued from per-reader state + seek-before-read, not separately verified')
+CLAIMED['C18'] = dict(
+    text='Proof in two parts: (1) fault-mode contracts (any range read may be short, which is what a cut file does): reader construction, loaders, sample reads and header reads either raise or used only '
+         'complete reads, hence return what the complete file returns; (2) write-order obligations: count/table patches precede every footer byte, footer arrays in table order at the reader stride, '
+         'blocks in order (C16). Sequencing of the writer functions inside run() is read, not verified; the hash patch (last write) is out of scope.',
+    note='AX-FILE (writes append in order; a cut inside a write is a byte-length cut); same trusted base as C17; found and fixed D25 (short reads were decoded)')
